@@ -175,7 +175,7 @@ Lemma step_abs_sound lv e c ins e' c' :
   step_abs e ins = Ok e' -> step_conc lv ins c c' ->
   cenv_ok c' /\ gamma e' c' /\ wfenv e'.
 Proof.
-  intros L C G Wf SA [Hsame [Hword Hval]].
+  intros L C G Wf SA [Hsame [Hword [Hval _]]].
   assert (C' : cenv_ok c').
   { intros x. destruct (in_dec N.eq_dec x (i_outs ins)) as [I|NI]; [apply Hword; exact I | rewrite Hsame by exact NI; apply C]. }
   split; [exact C'|].
@@ -244,7 +244,7 @@ Proof. reflexivity. Qed.
 Lemma facts_step_sound lv c c' ins F :
   Forall (fact_holds lv c) F -> step_conc lv ins c c' -> Forall (fact_holds lv c') (facts_step F ins).
 Proof.
-  intros HF [Hsame [Hword Hval]].
+  intros HF [Hsame [Hword [Hval _]]].
   assert (K : Forall (fact_holds lv c') (filter (fun f => negb (existsb (mentions f) (i_outs ins))) F)).
   { apply Forall_forall. intros f Hf. apply filter_In in Hf as [Hin Hn].
     rewrite Forall_forall in HF. destruct (HF f Hin) as [g [Sg Eg]].
